@@ -243,7 +243,7 @@ def run(tier, seed):
         "bounds": "all real values of every model count; specification family enumerated",
         "functions_exercised": "teaal.trans.collector.Collector.dump/__build_time/__build_traffic/__build_compute/..., teaal.ir.fusion, teaal.parse.arch",
         "vacuity": "a dump without component times is inconclusive; seeded/C14 mutants are reported",
-        "exhaustive": True,
+        "exhaustive": tier == "thorough",
     }
     return runner.finish(PROP, tier, seed, "translation_validation", res, t0, cov, ASSUME)
 
